@@ -10,8 +10,8 @@ import (
 func init() {
 	register(&Property{
 		Meta: PropMeta{
-			ID:    "C17",
-			Level: "other",
+			ID:          "C17",
+			Level:       "other",
 			Explanation: "Structural necessary conditions of a well-formed help layout, decided on the SSA of /repo for all paths: (NP) the no-panic prover over every function reachable from WriteHelp, including all strings.Repeat counts, the wrap loop's slices and the rune back-off; (UNIT) dimensional analysis bytes / characters(=columns) / counts of every integer addition, subtraction, comparison and string slice bound in that scope — a byte count combined with a character or column count is a violation unless allow-listed with a reason; (COLUMN) one alignment computation per WriteHelp, descriptionStart reads only the three measured fields, and the description column is the same expression `descriptionStart() + paddingBeforeOption` for option rows and argument rows, used for the padding minuend, the continuation prefix and the wrap width alike; (MEASURE) the alignment pass measures every part the row writer prints under a guard no stronger than the writer's (so the padding cannot go negative) and skips exactly the hidden items; (WRAP) minimum width 10 and every emitted piece ends at a position ≤ width-1 (so the piece plus a possible hyphen fits); (TERM) a non-positive terminal width falls back to 80.",
 			NotDecided:  "the inequality dw ≥ 0 itself (allow-listed max-aggregate argument, valid once units and measured parts agree); that no line exceeds the width for every input; that wrapping preserves the words (value-level); visual width of wide/combining characters.",
 			Trusted:     []string{"go/ssa lowering", "go/types", "strings/utf8/bytes contracts", "one column per rune (the library's own model)"},
